@@ -83,10 +83,16 @@ func (r *Result) Violate(key, msg string, replay any) {
 		r.ViolationsDropped++
 		return
 	}
+	if _, err := json.Marshal(replay); err != nil {
+		replay = map[string]string{"unencodable": fmt.Sprintf("%+v", replay)}
+	}
 	r.Violations = append(r.Violations, Violation{key, msg, replay})
 }
 
 func (r *Result) Sample(x any) {
+	if _, err := json.Marshal(x); err != nil {
+		x = fmt.Sprintf("%+v", x)
+	}
 	if len(r.Samples) < 4 {
 		r.Samples = append(r.Samples, x)
 	}
